@@ -62,6 +62,16 @@ class Stats:
         self.ops = {}
         self.kinds = {"refusing-dtor": 0, "reference": 0, "from_cx-root": 0, "null-tracking": 0,
                       "alloc-failure-injected": 0, "huge-size": 0, "memlimit": 0, "probe": 0}
+        # branch / outcome of every op as classified by the model (driver mode `stat`)
+        self.outcomes = {}
+
+    def add_outcomes(self, ck, cases):
+        text = "".join("#case\n" + "\n".join(c) + "\n" for c in cases)
+        p = subprocess.run([ck.driver_path(DRIVER), "stat"], input=text, stdout=subprocess.PIPE, text=True)
+        for l in p.stdout.split("\n"):
+            if l.startswith("tags "):
+                for t in l.split()[1:]:
+                    self.outcomes[t] = self.outcomes.get(t, 0) + 1
 
     def add(self, cases):
         for c in cases:
@@ -91,6 +101,8 @@ class Stats:
 
 def go(ck, hcmd, dcmd, cases, label, stats, chunk=2500):
     stats.add(cases)
+    # outcome distribution: everything in the quick tier, a 40k-history sample per label otherwise
+    stats.add_outcomes(ck, cases if ck.tier == "quick" else cases[:40000])
     for ch in vf.chunks(cases, chunk):
         ck.compare_cases(hcmd, dcmd, ch, label=label, nontrivial=nontrivial)
 
@@ -126,7 +138,11 @@ def run(ck):
         "op mix biased to reference x reparent x realloc x refusing destructor; sizes from {0,1,7,8,9,16,24,100,"
         "4095,4096,TALLOC_MAXLEN-1,TALLOC_MAXLEN,TALLOC_MAXLEN+1,..}; default cx and talloc_from_cx roots; with and "
         "without null tracking; injected allocator failures), plus ALL sequences of N ops from a 16-op-per-object "
-        "alphabet after each of 8 allocation shapes of 3 objects (N=2 quick, N=3 thorough); implementation and "
+        "alphabet after each of 8 allocation shapes of 3 objects (N=2 quick, N=3 thorough); a quarter of the random "
+        "histories start from a structured subtree of depth 3-4 with references from sibling branches inside it and "
+        "from outside, several refusing destructors, then free / unlink / free_children of it (repeated promotion, "
+        "several throw_child in one call); the model classifies the branch / outcome of every op "
+        "(coverage.outcome_distribution); implementation and "
         "model are compared after every op; distinct = distinct history containing at least one mutating call")
     stats = Stats()
     go(ck, hcmd, dcmd, vf.corpus_cases(PID), "corpus", stats)
@@ -151,15 +167,14 @@ def run(ck):
             break
     ck.cov["op_histogram"] = stats.ops
     ck.cov["histories_with"] = stats.kinds
+    ck.cov["outcome_distribution"] = dict(sorted(stats.outcomes.items()))
     ck.cov["partial"] = PARTIAL
 
 
 PARTIAL = [
-    "unlink_last_releases: the object and every descendant reached without passing a referenced object are "
-    "released, everything outside the subtree is untouched; the final parent of a descendant that has references "
-    "of its own (promotion to the context of its first reference, possibly repeated when that context lies in "
-    "the freed subtree) is not characterised in one theorem (the single promotion step is unlink_primary_keeps; "
-    "wf_step guarantees nothing dangles)",
+    "no statement is left _partial; not stated as one theorem: WHICH referenced descendants survive a free (the "
+    "survivor set as an iff) -- unlink_last_releases gives the released set reached without passing a referenced "
+    "object, unlink_last_survivors the final parent and references of everything that does survive",
 ]
 
 
